@@ -43,8 +43,10 @@ theorem roundtrip_twice (a : Ast) (h : WFparse a) :
   · simp only [printStr, printP_norm_norm]
 
 /-- the spelling the deparser writes for a binary operator is a token that exactly one ladder level maps back to the
-    same operator, the levels below it leave that token alone, and `)` stops every level (per operator, evaluated on
-    the generated tables) -/
+    same operator, the levels below it leave that token alone, and `)` stops every level - including the level itself
+    when it parses its own right operand (right-associative `**`, generated flag `rassoc`).  Per operator, evaluated on
+    the generated tables.  Because print_expr parenthesises both operands, the round trip does not depend on the
+    associativity of any level: `(a ** b) ** c` and `a ** (b ** c)` are both read back as written. -/
 theorem ladder_reads_back_every_operator (op : BinOp) : binOK op = true := binOK_all op
 
 /-- assignment, unary and increment operators: spelling -> token -> same opcode -/
